@@ -254,6 +254,16 @@ Theorem C15_explicit_card_has_density : forall (T : Type) (SC : Scalar T) (e : e
 Proof. exact @explicit_card_has_density. Qed.
 Print Assumptions C15_explicit_card_has_density.
 
+(* the read-back test of the construction succeeds whenever the words are clean:
+   non-empty, made of characters the option normalisation leaves alone (no
+   blank, parenthesis, "=", capital), no colon at either end — the third way
+   the construction can be undefined is a word that is not clean (the particle
+   of "IMP=3" is empty: the entry would be written "imp: 3") *)
+Theorem C15_card_text_reads_back : forall (mw : list string) (g : string) (toks : list string),
+  cleanl mw -> cleanl toks -> wcard_of (card_text (mw, g, toks)) = (mw, g, toks).
+Proof. exact card_text_reads_back. Qed.
+Print Assumptions C15_card_text_reads_back.
+
 Example C15_example_no_density :
   parse_one_cell RS 2 (wenv 0%R 1%R)
     [(1%Z, (" 0", " -1 ", "imp:n=1")); (2%Z, ("", " like 1 but", " mat=2"))]
@@ -328,6 +338,26 @@ Theorem C15_like_importance_zero_iff_linked : forall (P : C12.Model.prims R) (e 
              = Some 0%R).
 Proof. exact like_importance_zero_iff_linked. Qed.
 Print Assumptions C15_like_importance_zero_iff_linked.
+
+(* deck level: the cell number of a LIKE n BUT card is in parse_all's list of
+   skipped cells (the NOTE of the written file; no volume is written for it) iff
+   the last value of every particle named — BUT list first, else inherited —
+   is zero *)
+Theorem C15_like_skipped_iff_linked : forall (P : C12.Model.prims R) (e : env (T:=R))
+    (tbl : table) (cells : list (Z * cell (T:=R))) (k : Z) (mat0 g0 o : string) (n : Z)
+    (d : nat) (mx gx ox : string) (kb ko : kws (T:=R)),
+  parse_all RS e tbl = Ok cells -> NoDup (map fst tbl) -> In (k, (mat0, g0, o)) tbl ->
+  search_like (lower g0) = Some n -> denotes tbl n d (mx, gx, ox) ->
+  sq_state false ox = false -> leads_colon o = false -> kw_head (tokenize o) ->
+  parse_kws RS e (tokenize ox) = Ok kb -> parse_kws RS e (tokenize o) = Ok ko ->
+  (k_impl kb ++ k_impl ko)%list <> [] ->
+  Forall (fun pv => 0 <= snd pv)%R (k_impl kb ++ k_impl ko)%list ->
+  (In k (skipped RS cells) <->
+   forall p, In p (map fst (k_impl kb ++ k_impl ko)%list) ->
+             match imp_last (k_impl ko) p with Some v => Some v | None => imp_last (k_impl kb) p end
+             = Some 0%R).
+Proof. exact like_skipped_iff_linked. Qed.
+Print Assumptions C15_like_skipped_iff_linked.
 
 (* the two former counter-examples, now equalities: "2 like 1 but imp:n=0" on
    "1 1 -1.0 -1 imp:n=1 imp:p=0" is the card "1 -1.0 -1 imp:n=0 imp:p=0", and
